@@ -155,8 +155,10 @@ TEMPLATES = [
     ('plain', '{t} plain text', True),
 ]
 # Fixed probes that decide the clause for a guilty payload kind: the first is
-# inert inside a quoted attribute value, the second inert in a text position.
-PROBES = ['{t}<zq17 zq17=1>', '{t}" zq17="1']
+# inert inside a quoted attribute value, the second inert in a text position,
+# the third inert in both (it only ends a single-quoted JavaScript literal of
+# an event-handler attribute).
+PROBES = ['{t}<zq17 zq17=1>', '{t}" zq17="1', "{t}' zq17='1"]
 KEY_TEMPLATES = [t for t in TEMPLATES if t[2]]
 # repr() of a non-symbolic leaf: multi-line reprs may be re-indented by the
 # formatter (layout, not escaping), so no newline there.
@@ -171,6 +173,82 @@ assert all(not set('.[]') & set(t[1]) for t in KEY_TEMPLATES)
 
 
 TPL = {tid: tpl for tid, tpl, _ in TEMPLATES}
+
+
+# ----------------------------------------------------------------------------
+# User-side code that can fail: extension classes (HtmlTreeView.Extension with
+# overridden content / summary, as pg.Ref and pg.Diff are), a leaf whose repr()
+# can raise, option callables that raise.  `ARM` says which of them raises at
+# its n-th call during the current rendering (histories, "failing" steps);
+# unarmed they behave like ordinary user code.
+# ----------------------------------------------------------------------------
+
+TV = pg.views.html.HtmlTreeView
+ARM = {'where': None, 'n': 0, 'fired': False}
+
+
+class UserBug(Exception):
+  """Raised by user-side code (callables, extension methods, repr)."""
+
+
+def _maybe_fail(where):
+  if ARM['where'] == where:
+    ARM['n'] -= 1
+    if ARM['n'] <= 0:
+      ARM['fired'] = True
+      raise UserBug(where)
+
+
+class ExtBox(pg.Object, TV.Extension):
+  """Shows `x` in its own place (like pg.Ref) under a title of its own."""
+  x: pg.typing.Any() = None
+  y: pg.typing.Any() = None
+
+  def _html_tree_view_summary(self, *, view, title=None, **kwargs):
+    _maybe_fail('ext-summary')
+    return view.summary(self, title=title or 'ExtBox of', **kwargs)
+
+  def _html_tree_view_content(self, *, view, **kwargs):
+    _maybe_fail('ext-content')
+    return view.content(self.sym_getattr('x'), **kwargs)
+
+
+class ExtWrap(pg.Object, TV.Extension):
+  """Delegates to the default content and wraps it (scenario 1 of the docs)."""
+  x: pg.typing.Any() = None
+  y: pg.typing.Any() = None
+
+  def _html_tree_view_content(self, *, view, **kwargs):
+    _maybe_fail('ext-content')
+    return Html.element('div', [view.content(self, **kwargs)],
+                        css_classes=['ext-wrap'])
+
+  @classmethod
+  def _html_tree_view_config(cls):
+    return dict(css_classes=['ext-wrapped'])
+
+
+class ExtPlain(TV.Extension):
+  """A non-symbolic user class that lays out its items with the view."""
+
+  def __init__(self, items):
+    self.items = items
+
+  def __repr__(self):
+    return f'ExtPlain({len(self.items)} items)'
+
+  def _html_tree_view_content(self, *, view, parent=None, root_path=None,
+                              **kwargs):
+    _maybe_fail('ext-content')
+    return view.complex_value(kv=self.items, parent=self, root_path=root_path,
+                              **kwargs)
+
+
+class FlakyRepr(M.ReprLeaf):
+
+  def __repr__(self):
+    _maybe_fail('repr')
+    return self.text
 
 
 class Slots:
@@ -190,6 +268,11 @@ class Slots:
     self.prefix = prefix
     self.share_p = 0.0
     self.html_objs = None   # histories: {(mode, markup): pg.Html} shared objects
+    # Controls: are ids / css classes / styles / targets / tab names payload
+    # positions (single renderings) or benign configuration (histories, whose
+    # update scripts address the elements by id and class)?
+    self.config_hostile = True
+    self.rich = None        # per-case density of optional control arguments
 
   def new(self, rng, kind, templates=None, pad=0):
     if self.share_p and self.items and rng.random() < self.share_p:
@@ -229,6 +312,7 @@ class Slots:
       out.textids.append(textid)
     if self.html_objs is not None:
       out.html_objs = {}
+    out.config_hostile = self.config_hostile
     return out
 
 
@@ -248,6 +332,8 @@ class Gen:
     # Payloads in keys only in a part of the cases: the other cases explore the
     # remaining positions without the (costly) attribution of key findings.
     self.key_payloads = rng.random() < 0.4
+    # Histories with failing renderings: more nodes with a view of their own.
+    self.ext_bias = False
 
   def keyref(self, key_kind, siblings=()):
     r = self.rng.random()
@@ -285,6 +371,8 @@ class Gen:
       return self.leaf()
     r = rng.random()
     kids = rng.randint(0, 4) if depth else rng.randint(1, 5)
+    if self.ext_bias and key_kind != 'diff-key' and rng.random() < 0.3:
+      r = rng.uniform(0.88, 0.975)
     if r < 0.34:
       items = []
       for _ in range(kids):
@@ -324,16 +412,36 @@ class Gen:
       return ['O', rng.choice(['NameElem', 'NameAttr', 'Lambda']),
               self.value(depth + 1, path + [['plain', 'x']]),
               self.value(depth + 1, path + [['plain', 'y']])]
-    if r < 0.92:
-      if rng.random() < 0.5:
+    if r < 0.915:
+      if rng.random() < 0.35:
         # Ref has its own summary title (type name of the referred value).
         self.class_kinds.add('class-name')
         return ['R', ['O', rng.choice(['NameElem', 'NameAttr', 'Lambda']),
                       self.leaf(), self.leaf()]]
-      return ['R', self.value(depth + 1, path)]
-    if r < 0.97:
+      # The referred value may be a plain dict / list (held by reference).
+      return ['R', self.value(depth + 1, path, plain_ok=True)]
+    if r < 0.945:
+      return self.extension(depth, path)
+    if r < 0.98:
       return self.diff(depth)
     return ['C', self.leaf()]
+
+  def extension(self, depth, path):
+    """A node of a user class that overrides parts of its tree view."""
+    rng = self.rng
+    variant = rng.choice(['box', 'wrap', 'plain'])
+    if variant == 'plain':
+      items = []
+      for _ in range(rng.randint(1, 3)):
+        k = self.keyref('key', items)
+        items.append([k, self.value(depth + 1, path + [k])])
+      return ['E', 'plain', items]
+    if variant == 'box':
+      return ['E', 'box', self.value(depth + 1, path, plain_ok=True),
+              self.leaf()]
+    self.paths.append(path)
+    return ['E', 'wrap', self.value(depth + 1, path + [['plain', 'x']]),
+            self.value(depth + 1, path + [['plain', 'y']])]
 
   def diff(self, depth):
     """A pg.diff of a Dict/List and an edited copy of it."""
@@ -394,7 +502,7 @@ def build(d, S, mode):
   if t == 's':
     return S.text(d[1], mode)
   if t == 'r':
-    return M.ReprLeaf(S.text(d[1], mode))
+    return FlakyRepr(S.text(d[1], mode))
   if t in ('i', 'f', 'b'):
     return d[1]
   if t == 'n':
@@ -418,6 +526,12 @@ def build(d, S, mode):
     return pick_class(d[1], mode)(x=build(d[2], S, mode), y=build(d[3], S, mode))
   if t == 'R':
     return pg.Ref(build(d[1], S, mode))
+  if t == 'E':
+    if d[1] == 'plain':
+      return ExtPlain({key_text(k, S, mode): build(v, S, mode)
+                       for k, v in d[2]})
+    return (ExtBox if d[1] == 'box' else ExtWrap)(
+        x=build(d[2], S, mode), y=build(d[3], S, mode))
   if t == 'X':
     return pg.diff(build(d[1], S, mode), build(d[2], S, mode), mode=d[3])
   if t == 'C':
@@ -473,7 +587,19 @@ def expectations(d, S, mode, out, flags=(None, True)):
   elif t == 'O':
     for v in d[2:]:
       expectations(v, S, mode, out, flags)
-  # R, X, C, W: custom views, no presence claim modelled.
+  elif t == 'R':
+    # "Overrides the content to render the referenced value".
+    expectations(d[1], S, mode, out, flags)
+  elif t == 'E':
+    if d[1] == 'plain':
+      for k, v in d[2]:
+        if key_shown(v, flags):
+          out.append(('key', [key_text(k, S, mode)]))
+        expectations(v, S, mode, out, flags)
+    else:
+      for v in (d[2:3] if d[1] == 'box' else d[2:]):
+        expectations(v, S, mode, out, flags)
+  # X, C, W: custom views, no presence claim modelled.
 
 
 # ----------------------------------------------------------------------------
@@ -513,6 +639,26 @@ FNS = {'key_style': _fn_key_style, 'color': _fn_color, 'include': _fn_include,
        'is_int': _fn_is_int, 'is_str': _fn_is_str}
 
 ENTRIES = ['fn', 'obj', 'method', 'scoped', 'repr_html']
+
+# Documented callable options -> the well-behaved function they wrap when they
+# are made to fail.
+FAILABLE_OPTS = [('key_style', 'key_style'), ('key_color', 'color'),
+                 ('summary_color', 'color'), ('highlight', 'is_int'),
+                 ('lowlight', 'is_str'), ('include_keys', 'include'),
+                 ('exclude_keys', 'exclude'), ('uncollapse', 'uncollapse')]
+
+
+def failing_fn(fn, n):
+  """`fn` with a bug: its n-th call in this rendering raises."""
+  calls = [0]
+
+  def buggy(path, value, parent):
+    calls[0] += 1
+    if calls[0] >= n:
+      ARM['fired'] = True
+      raise UserBug('option callable')
+    return fn(path, value, parent)
+  return buggy
 
 
 def gen_opts(rng, S, desc, gen):
@@ -606,6 +752,8 @@ def build_opts(o, S, mode):
       continue
     if isinstance(v, list) and v and v[0] == 'fn':
       kw[k] = FNS[v[1]]
+    elif isinstance(v, list) and v and v[0] == 'failfn':
+      kw[k] = failing_fn(FNS[v[1]], v[2])
     elif isinstance(v, list) and v and v[0] == 'tuple':
       kw[k] = (v[1], v[2])
     elif isinstance(v, list) and v and v[0] == 'list':
@@ -669,35 +817,78 @@ def _textref(rng, S, kind, allow_html=True):
   return ['html', '<b class="x">bold</b> &amp; <i>it</i><br>']
 
 
-def _common(rng):
+def _rich(rng, S):
+  """Per-case density of the optional arguments of a control: plain controls
+  (text only) and fully decorated ones are both frequent."""
+  if S.rich is None:
+    S.rich = rng.choice([0.06, 0.3, 0.55])
+  return S.rich
+
+
+def _cfg(rng, S, kind, benign, templates=None):
+  """A configuration string (id, css class, style key / value, target, tab
+  name): a payload slot in single renderings, the benign text in histories."""
+  if S.config_hostile and rng.random() < 0.6:
+    return ['slot', S.new(rng, kind, templates)]
+  return benign
+
+
+def _common(rng, S, cls, pos=''):
+  """id / css_classes / styles of a control of class `cls`; `pos` is the
+  structural position of a label (@group-name, @group-value, @tab-label,
+  @progress) and part of the payload kind."""
+  p = _rich(rng, S)
   d = {}
-  if rng.random() < 0.4:
-    d['id'] = 'id' + str(rng.randint(0, 99))
-  if rng.random() < 0.4:
-    d['css_classes'] = rng.choice([['c1'], ['c1', 'c-2']])
-  if rng.random() < 0.4:
-    d['styles'] = rng.choice([{'color': 'red'},
-                              {'background_color': '#eee', 'width': '50%'}])
+  if rng.random() < p:
+    d['id'] = _cfg(rng, S, f'{cls}.id{pos}', 'id' + str(rng.randint(0, 99)))
+  if rng.random() < max(p, 0.4):
+    d['css_classes'] = [_cfg(rng, S, f'{cls}.css_classes{pos}', c)
+                        for c in rng.choice([['c1'], ['c1', 'c-2']])]
+  if rng.random() < p:
+    base = rng.choice([{'color': 'red'},
+                       {'background_color': '#eee', 'width': '50%'}])
+    if S.config_hostile:
+      d['styles'] = ['pairs'] + [
+          [_cfg(rng, S, f'{cls}.styles{pos}', k, KEY_TEMPLATES),
+           _cfg(rng, S, f'{cls}.styles{pos}', v)] for k, v in base.items()]
+    else:
+      d['styles'] = base
   return d
 
 
-def gen_label(rng, S, cls=None):
-  d = _common(rng)
+def gen_label(rng, S, cls=None, pos=''):
+  p = _rich(rng, S)
+  d = _common(rng, S, 'Label', pos)
   d['text'] = _textref(rng, S, 'Label.text')
-  if rng.random() < 0.5:
-    d['tooltip'] = _textref(rng, S, 'Tooltip.content')
-  if rng.random() < 0.4:
+  if rng.random() < 0.05 + 0.9 * p:
+    if S.config_hostile and rng.random() < 0.3:
+      # A Tooltip object with arguments of its own instead of a str.
+      t = _common(rng, S, 'Tooltip', '@label')
+      t['content'] = _textref(rng, S, 'Tooltip.content')
+      d['tooltip'] = ['ctl', ['Tooltip', t]]
+    else:
+      d['tooltip'] = _textref(rng, S, 'Tooltip.content')
+  if rng.random() < 0.75 * p:
     d['link'] = (['slot', S.new(rng, 'Label.link')] if rng.random() < 0.7
                  else ['plain', 'https://example.com/a?b=1&c=2'])
     if rng.random() < 0.3:
-      d['target'] = '_blank'
-  if rng.random() < 0.3:
+      d['target'] = _cfg(rng, S, 'Label.target' + pos, '_blank')
+  if rng.random() < 0.25:
     d['interactive'] = True
   return [cls or rng.choice(['Label', 'Label', 'Badge']), d]
 
 
+def gen_member(rng, S, pos, cls=None):
+  """A name / value of a label group: a Label, or (single renderings) a str
+  that the group converts to a Label."""
+  if S.config_hostile and rng.random() < 0.2:
+    return ['str', _textref(rng, S, 'Label.text', False)]
+  return gen_label(rng, S, cls, pos)
+
+
 def gen_tab(rng, S, depth=0):
-  t = {'label': (gen_label(rng, S, 'Label') if rng.random() < 0.6
+  t = {'label': (gen_label(rng, S, 'Label', '@tab-label')
+                 if rng.random() < 0.6
                  else ['str', _textref(rng, S, 'Label.text', False)])}
   rc = rng.random()
   if rc < 0.35:
@@ -709,9 +900,9 @@ def gen_tab(rng, S, depth=0):
   else:
     t['content'] = ['html', '<p>tab <b>content</b></p>']
   if rng.random() < 0.3:
-    t['css_classes'] = ['tc']
+    t['css_classes'] = [_cfg(rng, S, 'Tab.css_classes', 'tc')]
   if rng.random() < 0.3:
-    t['name'] = 'tabname'
+    t['name'] = _cfg(rng, S, 'Tab.name', 'tabname')
   return t
 
 
@@ -719,30 +910,37 @@ def gen_control(rng, S, depth=0):
   r = rng.random()
   if r < 0.3 or depth >= 2:
     return gen_label(rng, S)
-  if r < 0.42:
-    d = _common(rng)
-    d['labels'] = [gen_label(rng, S) for _ in range(rng.randint(0, 3))]
+  if r < 0.46:
+    d = _common(rng, S, 'LabelGroup')
+    d['labels'] = [gen_member(rng, S, '@group-value')
+                   for _ in range(rng.randint(0, 3))]
     if rng.random() < 0.6:
-      d['name'] = gen_label(rng, S, 'Label')
+      d['name'] = gen_member(rng, S, '@group-name', 'Label')
+    if rng.random() < 0.2:
+      d['interactive'] = True
     return ['LabelGroup', d]
-  if r < 0.54:
-    d = _common(rng)
+  if r < 0.56:
+    d = _common(rng, S, 'Tooltip')
     d['content'] = _textref(rng, S, 'Tooltip.content')
     d['for_element'] = rng.choice(['.x', '#y'])
     return ['Tooltip', d]
   if r < 0.8:
-    d = _common(rng)
+    d = _common(rng, S, 'TabControl')
     tabs = [gen_tab(rng, S, depth) for _ in range(rng.randint(0, 3))]
     d['tabs'] = tabs
     if tabs:
       d['selected'] = rng.randrange(len(tabs))
     d['tab_position'] = rng.choice(['top', 'left'])
     return ['TabControl', d]
-  d = {}
-  d['subprogresses'] = [
-      [['slot', S.new(rng, 'SubProgress.name')] if rng.random() < 0.6
-       else ['plain', rng.choice(['Succeeded', 'failedRuns'])],
-       rng.randint(0, 5)] for _ in range(rng.randint(0, 3))]
+  d = _common(rng, S, 'ProgressBar') if S.config_hostile else {}
+  d['subprogresses'] = []
+  for _ in range(rng.randint(0, 3)):
+    sp = [['slot', S.new(rng, 'SubProgress.name')] if rng.random() < 0.6
+          else ['plain', rng.choice(['Succeeded', 'failedRuns'])],
+          rng.randint(0, 5)]
+    if S.config_hostile:
+      sp.append(_common(rng, S, 'SubProgress'))
+    d['subprogresses'].append(sp)
   d['total'] = rng.choice([None, 10, 20])
   return ['ProgressBar', d]
 
@@ -759,9 +957,33 @@ def _textval(ref, S, mode):
   return ref[1]
 
 
+def _cfgval(x, S, mode):
+  return _textval(x, S, mode) if isinstance(x, list) else x
+
+
+def _config_kw(a, S, mode):
+  kw = {}
+  if 'id' in a:
+    kw['id'] = _cfgval(a['id'], S, mode)
+  if 'css_classes' in a:
+    kw['css_classes'] = [_cfgval(c, S, mode) for c in a['css_classes']]
+  if 'styles' in a:
+    st = a['styles']
+    if isinstance(st, list):
+      kw['styles'] = {_cfgval(k, S, mode): _cfgval(v, S, mode)
+                      for k, v in st[1:]}
+    else:
+      kw['styles'] = dict(st)
+  return kw
+
+
+def build_member(d, S, mode):
+  return (_textval(d[1], S, mode) if d[0] == 'str'
+          else build_control(d, S, mode))
+
+
 def build_tab(t, S, mode):
-  lab = (_textval(t['label'][1], S, mode) if t['label'][0] == 'str'
-         else build_control(t['label'], S, mode))
+  lab = build_member(t['label'], S, mode)
   c = t['content']
   if c[0] == 'value':
     content = build(c[1], S, mode)
@@ -775,31 +997,33 @@ def build_tab(t, S, mode):
     content = build_control(c[1], S, mode)
   else:
     content = _textval(c, S, mode)
-  tk = {k: t[k] for k in ('css_classes', 'name') if k in t}
-  if 'css_classes' in tk:
-    tk['css_classes'] = list(tk['css_classes'])
+  tk = {}
+  if 'css_classes' in t:
+    tk['css_classes'] = [_cfgval(x, S, mode) for x in t['css_classes']]
+  if 'name' in t:
+    tk['name'] = _cfgval(t['name'], S, mode)
   return C.Tab(label=lab, content=content, **tk)
 
 
 def build_control(d, S, mode):
   name, a = d
-  kw = {k: a[k] for k in ('id', 'css_classes', 'styles', 'interactive',
-                          'target', 'for_element', 'selected', 'tab_position',
-                          'total') if k in a}
-  if 'css_classes' in kw:
-    kw['css_classes'] = list(kw['css_classes'])
-  if 'styles' in kw:
-    kw['styles'] = dict(kw['styles'])
+  kw = {k: a[k] for k in ('interactive', 'for_element', 'selected',
+                          'tab_position', 'total') if k in a}
+  kw.update(_config_kw(a, S, mode))
   if name in ('Label', 'Badge'):
     if 'tooltip' in a:
-      kw['tooltip'] = _textval(a['tooltip'], S, mode)
+      kw['tooltip'] = (build_control(a['tooltip'][1], S, mode)
+                       if a['tooltip'][0] == 'ctl'
+                       else _textval(a['tooltip'], S, mode))
     if 'link' in a:
       kw['link'] = _textval(a['link'], S, mode)
+    if 'target' in a:
+      kw['target'] = _cfgval(a['target'], S, mode)
     return getattr(C, name)(text=_textval(a['text'], S, mode), **kw)
   if name == 'LabelGroup':
     if 'name' in a:
-      kw['name'] = build_control(a['name'], S, mode)
-    return C.LabelGroup(labels=[build_control(x, S, mode) for x in a['labels']],
+      kw['name'] = build_member(a['name'], S, mode)
+    return C.LabelGroup(labels=[build_member(x, S, mode) for x in a['labels']],
                         **kw)
   if name == 'Tooltip':
     return C.Tooltip(content=_textval(a['content'], S, mode), **kw)
@@ -808,13 +1032,17 @@ def build_control(d, S, mode):
     return C.TabControl(tabs=tabs, **kw)
   if name == 'ProgressBar':
     return C.ProgressBar(
-        subprogresses=[C.SubProgress(name=_textval(n, S, mode), value=v)
-                       for n, v in a['subprogresses']], **kw)
+        subprogresses=[C.SubProgress(name=_textval(sp[0], S, mode), value=sp[1],
+                                     **_config_kw(sp[2] if len(sp) > 2 else {},
+                                                  S, mode))
+                       for sp in a['subprogresses']], **kw)
   raise ValueError(name)
 
 
 def control_class_kinds(d, out):
   name, a = d
+  if name == 'str':
+    return out
   for x in a.get('labels', []):
     control_class_kinds(x, out)
   for t in a.get('tabs', []):
@@ -827,20 +1055,22 @@ def control_class_kinds(d, out):
 def control_expectations(d, S, mode, out):
   """Texts a control must show: label texts and tooltip contents (str only)."""
   name, a = d
+  if name == 'str':
+    out.append(('Label.text', [_textval(a, S, mode)]))
+    return
   for f, what in (('text', 'Label.text'), ('tooltip', 'Tooltip.content'),
                   ('content', 'Tooltip.content')):
     ref = a.get(f)
     if isinstance(ref, list) and ref and ref[0] in ('slot', 'plain'):
       out.append((what, [_textval(ref, S, mode)]))
+    elif isinstance(ref, list) and ref and ref[0] == 'ctl':
+      control_expectations(ref[1], S, mode, out)
   if 'name' in a and isinstance(a['name'], list) and name == 'LabelGroup':
     control_expectations(a['name'], S, mode, out)
   for x in a.get('labels', []):
     control_expectations(x, S, mode, out)
   for t in a.get('tabs', []):
-    if t['label'][0] == 'str':
-      out.append(('Label.text', [_textval(t['label'][1], S, mode)]))
-    else:
-      control_expectations(t['label'], S, mode, out)
+    control_expectations(t['label'], S, mode, out)
     if t['content'][0] == 'control':
       control_expectations(t['content'][1], S, mode, out)
     elif t['content'][0] == 'value':
@@ -874,6 +1104,19 @@ def judge(rh, rt):
   if only_h:
     return ('structure-differs',
             f'strict-rule errors only in the hostile rendering: {rh.describe()}')
+  # Same elements and attribute names: the event handlers (`on*` attribute
+  # values, references resolved) must execute the same code as the twin's.
+  for (tag, n, vh), (_, _, vt) in zip(
+      [x for x in rh.attrs if x[1].startswith('on')],
+      [x for x in rt.attrs if x[1].startswith('on')]):
+    sh, st = JS.scan(vh or ''), JS.scan(vt or '')
+    if st.errors:
+      continue          # reported as `malformed` for the benign rendering
+    if sh.errors or sh.skeleton != st.skeleton:
+      return ('script-breakout',
+              f'the code of the handler <{tag} {n}={vh!r}> differs from the '
+              f'twin\'s {vt!r}: ' + (sh.describe() or
+                                     f'{sh.skeleton!r} vs {st.skeleton!r}'))
   return None
 
 
@@ -1076,7 +1319,8 @@ def evaluate(ctx, subj):
                                        v_text)
     if not found:
       if vk is not None:
-        clause, detail = ('structure-differs' if has_slots else vk[0]), vk[1]
+        clause, detail = ('structure-differs' if has_slots
+                          and not vk[0].startswith('script-') else vk[0]), vk[1]
       else:
         clause, detail = 'absent', absent_detail(k_exp, mk, 'hostile')
       found[(clause, subj.mechanism(k))] = (detail, k_text)
@@ -1149,7 +1393,7 @@ class TreeSubject(Subject):
 
   def _filters(self, o):
     for k in ('include_keys', 'exclude_keys'):
-      if k in o and o[k][0] == 'fn':
+      if k in o and o[k][0] in ('fn', 'failfn'):
         return None
     inc = o.get('include_keys')
     exc = o.get('exclude_keys')
@@ -1622,10 +1866,14 @@ def gen_history(rng, S):
   """Returns (control descriptions, value records, steps), all JSON-able."""
   S.share_p = 0.5
   S.html_objs = {}
+  S.config_hostile = False
   controls = [force_interactive(gen_control(rng, S))
               for _ in range(rng.randint(1, 2))]
   model = copy.deepcopy(controls)
   values, gens, steps = [], [], []
+  # 45 % of the histories contain renderings that fail midway in user code.
+  failing = rng.random() < 0.45
+  again = None        # value whose rendering has just failed
   for ci in range(len(controls)):
     if rng.random() < 0.75:
       steps.append(['render-control', ci, rng.choice(HISTORY_HOWS),
@@ -1633,20 +1881,33 @@ def gen_history(rng, S):
   n = rng.randint(4, 9)
   while len(steps) < n:
     r = rng.random()
+    if again is not None and rng.random() < 0.8:
+      r = 0.3         # the value of the failed rendering is rendered again
+    elif failing and rng.random() < 0.22:
+      r = 0.25
     if r < 0.2:
       steps.append(['render-control', rng.randrange(len(controls)),
                     rng.choice(HISTORY_HOWS), rng.random() < 0.7])
     elif r < 0.44:
-      if values and rng.random() < 0.4:
+      if again is not None:
+        vi = again
+      elif values and rng.random() < 0.4:
         vi = rng.randrange(len(values))
       else:
         g = Gen(rng, S)
+        g.ext_bias = failing
         desc = g.value(0, [], plain_ok=True)
         values.append({'desc': desc, 'class_kinds': sorted(g.class_kinds)})
         gens.append(g)
         vi = len(values) - 1
-      steps.append(['render-value', vi,
-                    gen_opts(rng, S, values[vi]['desc'], gens[vi])])
+      opts = gen_opts(rng, S, values[vi]['desc'], gens[vi])
+      if failing and again is None and r < 0.3:
+        steps.append(['render-value-failing', vi, opts,
+                      gen_failure(rng, values[vi]['desc'], opts)])
+        again = vi
+      else:
+        steps.append(['render-value', vi, opts])
+        again = None
     elif r < 0.9:
       u = gen_update(rng, S, model)
       if u is not None:
@@ -1658,6 +1919,34 @@ def gen_history(rng, S):
                                     pad=rng.choice([0, 0, 10])), form,
                     rng.random() < 0.3])
   return controls, values, steps
+
+
+def _has_node(d, pred):
+  if isinstance(d, list):
+    return pred(d) or any(_has_node(x, pred) for x in d)
+  return False
+
+
+def gen_failure(rng, desc, opts):
+  """Which user-side code of a rendering has a bug, and at which call (the
+  rendering is an ordinary one if that call is never made).  Changes `opts`
+  for a failing option callable."""
+  hows = ['opt', 'opt']
+  if _has_node(desc, lambda d: d[:1] == ['r']):
+    hows.append('repr')
+  if _has_node(desc, lambda d: d[:1] == ['E']):
+    hows += ['ext-content', 'ext-content']
+  if _has_node(desc, lambda d: d[:2] == ['E', 'box']):
+    hows.append('ext-summary')
+  how = rng.choice(hows)
+  n = rng.choice([1, 1, 2, 2, 3, 4, 6, 9])
+  if how != 'opt':
+    return [how, n]
+  name, fn = rng.choice(FAILABLE_OPTS)
+  opts[name] = ['failfn', fn, n]
+  if 'scoped' in opts and rng.random() < 0.5 and name not in opts['scoped']:
+    opts['scoped'] = sorted(opts['scoped'] + [name])
+  return ['opt', name, n]
 
 
 class World:
@@ -1691,6 +1980,27 @@ def exec_step(ctx, w, step, descs, values, args_S=None):
         w.values[vi] = build(values[vi]['desc'], S, mode)
       subj = TreeSubject(ctx, S, values[vi]['desc'], opts, ())
       return subj.render(mode, value=w.values[vi])
+    if kind == 'render-value-failing':
+      _, vi, opts, how = step
+      ctx.label = 'history:build-value'
+      if vi not in w.values:
+        w.values[vi] = build(values[vi]['desc'], S, mode)
+      subj = TreeSubject(ctx, S, values[vi]['desc'], opts, ())
+      ARM.update(where=None if how[0] == 'opt' else how[0], n=how[-1],
+                 fired=False)
+      try:
+        text, exp, changed = subj.render(mode, value=w.values[vi])
+      except Exception as e:  # pylint: disable=broad-except
+        if not ARM['fired']:
+          raise
+        # The error of the user code (as it is, or wrapped by the library).
+        return ('raised', type(e).__name__)
+      finally:
+        ARM.update(where=None)
+        ctx.label = None
+      # The failing call was never made (an ordinary rendering), or the
+      # library went on without the failed part (no presence claim then).
+      return text, ([] if ARM['fired'] else exp), changed
     if kind == 'escape':
       _, slot, form, as_callable = step
       t = S.text(slot, mode)
@@ -1878,6 +2188,15 @@ def escape_findings(ctx, step, t_out, h_out):
 def step_findings(ctx, S, hostile, step, t_out, h_out, args_S=None):
   if step[0] == 'render-control':
     return html_findings(ctx, t_out, h_out, ())
+  if step[0] == 'render-value-failing':
+    raised = [o[0] == 'raised' for o in (t_out, h_out)]
+    ctx.counters['failing_renderings_raised'] += all(raised)
+    ctx.counters['failing_renderings_completed'] += not any(raised)
+    # Whether the buggy call is reached is a matter of the user code alone.
+    ctx.counters['failing_renderings_diverged'] += raised[0] != raised[1]
+    if any(raised):
+      return []
+    return html_findings(ctx, t_out, h_out, ('tooltip',))
   if step[0] == 'render-value':
     return html_findings(ctx, t_out, h_out, ('tooltip',))
   if step[0] == 'escape':
